@@ -75,6 +75,25 @@ Theorem C37_dropped_empty_is_noop :
 Proof. exact ce_dropped_empty_is_noop. Qed.
 Print Assumptions C37_dropped_empty_is_noop.
 
+(* DESIGN 7 #11 (repaired in 5b09a15, shared by the MA remover): a selected variant left out because one of its
+   conditional effects raises UPConflictingEffectsException against another effect loses nothing — the original
+   action is not applicable there.  Hypotheses: the effects taking part in the syntactic check have no forall
+   variables and target non-Boolean fluents of the problem, and two assigned value expressions that differ
+   syntactically (and are not equal constants) evaluate to different values in the state (otherwise the code drops a
+   variant although the documented semantics lets the two equal assignments through: the analogue of
+   C01-grounding-syntactic-conflict). *)
+Theorem C37_conflict_drop_sound :
+  forall P s a args, Forall (cond_ok P s a args) (cond_effs (a_effs a)) ->
+    let v := ce_variant a (the_sel P s a args) in
+    let I := mk_interp P s (zip_params (a_params a) args) in
+    add_effs_ok [] [] (a_effs v) = false ->
+    (forall e, In e (a_effs v) -> relevant e = true -> e_vars e = [] /\ is_bool_fluent P (e_fl e) = false) ->
+    (forall e1 e2, In e1 (a_effs v) -> In e2 (a_effs v) -> same_value (e_val e1) (e_val e2) = false ->
+       forall v1 v2, eval false (e_val e1) I = Some v1 -> eval false (e_val e2) I = Some v2 -> v1 <> v2) ->
+    applicable P s a args = false.
+Proof. exact ce_conflict_drop_sound. Qed.
+Print Assumptions C37_conflict_drop_sound.
+
 (* the simplified preconditions may replace the unsimplified ones wherever they are equivalent in the state *)
 Theorem C37_step_reads_preconditions_through_all_hold :
   forall P s a1 a2 args, a_params a1 = a_params a2 -> a_effs a1 = a_effs a2 ->
@@ -112,6 +131,21 @@ Theorem C37_dnf_dropped_empty_is_noop :
 Proof. exact dnf_dropped_empty_is_noop. Qed.
 Print Assumptions C37_dnf_dropped_empty_is_noop.
 
+(* a variant left out after UPConflictingEffectsException (faaf4e7): wherever its disjunct holds the original action is
+   not applicable (same hypotheses as C37_conflict_drop_sound) *)
+Theorem C37_dnf_conflict_drop_sound :
+  forall cdnf P s a args d, Forall (dnf_effect_ok cdnf P s a args) (a_effs a) ->
+    let v := dnf_variant cdnf a d in
+    let I := mk_interp P s (zip_params (a_params a) args) in
+    add_effs_ok [] [] (a_effs v) = false ->
+    (forall e, In e (a_effs v) -> relevant e = true -> e_vars e = [] /\ is_bool_fluent P (e_fl e) = false) ->
+    (forall e1 e2, In e1 (a_effs v) -> In e2 (a_effs v) -> same_value (e_val e1) (e_val e2) = false ->
+       forall v1 v2, eval false (e_val e1) I = Some v1 -> eval false (e_val e2) I = Some v2 -> v1 <> v2) ->
+    all_hold false I d = true -> (all_hold false I d = true -> all_hold false I (a_pre a) = true) ->
+    applicable P s a args = false.
+Proof. exact dnf_conflict_drop_sound. Qed.
+Print Assumptions C37_dnf_conflict_drop_sound.
+
 (* ------------------------------------------------------------------ goals *)
 (* original goals hold  <=>  every compiled goal holds (kept as an expression) or has an achiever whose disjunct
    holds (fake goal), given the per-goal DNF equivalences [cgoal_ok] *)
@@ -137,3 +171,151 @@ Theorem C37_fake_action_step :
                then Some (set_true s fk) else None).
 Proof. exact fake_action_step. Qed.
 Print Assumptions C37_fake_action_step.
+
+(* ================================================================== concrete instances *)
+Module C37_examples.
+  Definition fx := 0%N.  Definition fy := 1%N.  Definition fc := 2%N.  Definition fd := 3%N.  Definition fn := 4%N.
+  Definition fk := 5%N.
+  Definition bdecl (f : N) : fdecl := {| fd_id := f; fd_sig := []; fd_ty := FBool |}.
+  Definition Pb : problem :=
+    {| p_objs := []; p_ifun := [];
+       p_fluents := [bdecl fx; bdecl fy; bdecl fc; bdecl fd; {| fd_id := fn; fd_sig := []; fd_ty := FNum None None |};
+                     bdecl fk];
+       p_actions := []; p_goals := []; p_invs := [] |}.
+  Definition st (l : list (N * value)) : state := fun f a => match a with [] => lookupN f l | _ => None end.
+  Definition fl (f : N) : expr := EFluent f [].
+  Definition eff (f : N) (v c : expr) (k : ekind) (isb : bool) : effect :=
+    {| e_fl := f; e_args := []; e_val := v; e_cond := c; e_kind := k; e_vars := []; e_isbool := isb |}.
+
+  (* "if x then y := true" and nothing else *)
+  Definition a_ce : action :=
+    {| a_params := []; a_pre := []; a_effs := [eff fy (EBool true) (fl fx) KAssign true] |}.
+  (* the same with an unconditional effect "c := true" *)
+  Definition a_ce2 : action :=
+    {| a_params := []; a_pre := [ENot (fl fd)];
+       a_effs := [eff fy (EBool true) (fl fx) KAssign true; eff fc (EBool true) (EBool true) KAssign true] |}.
+  Definition s_x (x d : bool) : state :=
+    st [(fx, VBool x); (fy, VBool false); (fc, VBool false); (fd, VBool d); (fn, VNum (zq 0)); (fk, VBool false)].
+
+  Example cond_ok_ce2 x d : Forall (cond_ok Pb (s_x x d) a_ce2 []) (cond_effs (a_effs a_ce2)).
+  Proof.
+    repeat constructor. exists x. split; [reflexivity|]. repeat constructor. discriminate.
+  Qed.
+  Example cond_ok_ce x d : Forall (cond_ok Pb (s_x x d) a_ce []) (cond_effs (a_effs a_ce)).
+  Proof.
+    repeat constructor. exists x. split; [reflexivity|]. repeat constructor. discriminate.
+  Qed.
+
+  (* "n += 1 if (c or d)" and the disjunct list [c; d] of the real Dnf walker *)
+  Definition a_inc : action :=
+    {| a_params := []; a_pre := [];
+       a_effs := [eff fn (EInt 1) (EOr [fl fc; fl fd]) KInc false] |}.
+  Definition cdnf_cd (c : expr) : list expr := if expr_eqb c (EOr [fl fc; fl fd]) then [fl fc; fl fd] else [c].
+  Definition s_cd : state :=
+    st [(fx, VBool false); (fy, VBool false); (fc, VBool true); (fd, VBool true); (fn, VNum (zq 0)); (fk, VBool false)].
+  (* "y := true if (c or d)", precondition (x or d) with disjuncts [x] and [d] *)
+  Definition a_dnf : action :=
+    {| a_params := []; a_pre := [EOr [fl fx; fl fd]];
+       a_effs := [eff fy (EBool true) (EOr [fl fc; fl fd]) KAssign true] |}.
+  Example dnf_ok_a_dnf : Forall (dnf_effect_ok cdnf_cd Pb s_cd a_dnf []) (a_effs a_dnf).
+  Proof.
+    repeat constructor; try discriminate.
+    - exists true. reflexivity.
+    - intros d [H|[H|[]]]; subst; exists true; reflexivity.
+  Qed.
+End C37_examples.
+Import C37_examples.
+
+Example C37_exactly_one_variant_nonvacuous :
+  Forall (cond_ok Pb (s_x true false) a_ce2 []) (cond_effs (a_effs a_ce2)) /\
+  applicable Pb (s_x true false) a_ce2 [] = true /\ ce_kept a_ce2 (the_sel Pb (s_x true false) a_ce2 []) = true /\
+  length (ce_variants a_ce2) = 2%nat /\
+  In (the_sel Pb (s_x true false) a_ce2 []) (ce_sels a_ce2) /\
+  applicable Pb (s_x true false) (ce_variant a_ce2 (the_sel Pb (s_x true false) a_ce2 [])) [] = true.
+Proof. split; [apply cond_ok_ce2|]. repeat split; try reflexivity. vm_compute. auto. Qed.
+
+Example C37_no_variant_when_inapplicable_nonvacuous :
+  Forall (cond_ok Pb (s_x true true) a_ce2 []) (cond_effs (a_effs a_ce2)) /\
+  applicable Pb (s_x true true) a_ce2 [] = false.
+Proof. split; [apply cond_ok_ce2 | reflexivity]. Qed.
+
+(* FINDING C37-noop-variant-dropped: where no conditional effect fires the selected variant has no effect and is
+   discarded by `if len(new_action.effects) > 0`: the original action is applicable (its step changes nothing,
+   C37_dropped_empty_is_noop) and no kept variant is.  The statement "applicable iff some compiled variant is
+   applicable" therefore fails for the kept variants exactly on such no-op steps. *)
+Definition C37_kept_applicable_iff_some_variant_goal : Prop :=
+  forall P s a args, Forall (cond_ok P s a args) (cond_effs (a_effs a)) ->
+    (applicable P s a args = true <->
+     exists v, In v (ce_kept_variants a) /\ applicable P s v args = true).
+
+Theorem C37_kept_applicable_iff_some_variant_refuted :
+  exists P s a args, Forall (cond_ok P s a args) (cond_effs (a_effs a)) /\
+    applicable P s a args = true /\
+    filter (fun v => applicable P s v args) (ce_kept_variants a) = [] /\
+    ce_kept a (the_sel P s a args) = false /\ a_effs (ce_variant a (the_sel P s a args)) = [].
+Proof.
+  exists Pb, (s_x false false), a_ce, []. split; [apply cond_ok_ce|]. repeat split; reflexivity.
+Qed.
+Print Assumptions C37_kept_applicable_iff_some_variant_refuted.
+
+(* "n := 1; if c then n := 2" in a state where c holds: the selected variant is dropped for the conflict *)
+Example C37_conflict_drop_sound_nonvacuous :
+  let a := {| a_params := []; a_pre := [];
+              a_effs := [eff fn (EInt 1) (EBool true) KAssign false; eff fn (EInt 2) (fl fc) KAssign false] |} in
+  Forall (cond_ok Pb s_cd a []) (cond_effs (a_effs a)) /\
+  add_effs_ok [] [] (a_effs (ce_variant a (the_sel Pb s_cd a []))) = false /\
+  ce_kept a (the_sel Pb s_cd a []) = false /\ applicable Pb s_cd a [] = false /\
+  length (ce_kept_variants a) = 1%nat.
+Proof.
+  cbv zeta. split; [|repeat split; reflexivity].
+  repeat constructor. exists true. split; [reflexivity|]. repeat constructor. discriminate.
+Qed.
+
+Example C37_dnf_nonvacuous :
+  Forall (dnf_effect_ok cdnf_cd Pb s_cd a_dnf []) (a_effs a_dnf) /\
+  existsb (all_hold false (mk_interp Pb s_cd (zip_params (a_params a_dnf) []))) [[fl fx]; [fl fd]] =
+    all_hold false (mk_interp Pb s_cd (zip_params (a_params a_dnf) [])) (a_pre a_dnf) /\
+  applicable Pb s_cd a_dnf [] = true /\ applicable Pb s_cd (dnf_variant cdnf_cd a_dnf [fl fd]) [] = true /\
+  length (a_effs (dnf_variant cdnf_cd a_dnf [fl fd])) = 2%nat.
+Proof. split; [apply dnf_ok_a_dnf|]. repeat split; reflexivity. Qed.
+
+(* FINDING (inherits C06-dcr-increase-per-disjunct): without the hypothesis [split_ok] the disjunctive theorem is
+   false of the faithful model: "n += 1 if (c or d)" becomes "n += 1 if c; n += 1 if d", and where both hold the variant
+   adds 2 *)
+Theorem C37_dnf_increase_split_refuted :
+  exists cdnf P s a args d,
+    (forall e J, In e (a_effs a) -> In J (instances (mk_interp P s (zip_params (a_params a) args)) (e_vars e)) ->
+       dnf_cond_ok cdnf J e) /\
+    applicable P s a args = true /\ applicable P s (dnf_variant cdnf a d) args = true /\
+    (exists t t', spec_step false P s a args = Some t /\ spec_step false P s (dnf_variant cdnf a d) args = Some t' /\
+                  t fn [] = Some (VNum (zq 1)) /\ t' fn [] = Some (VNum (zq 2))).
+Proof.
+  exists cdnf_cd, Pb, s_cd, a_inc, [], []. split; [|split; [reflexivity | split; [reflexivity|]]].
+  - intros e J He HJ. simpl in He. destruct He as [He|[]]. subst e. simpl in HJ. destruct HJ as [HJ|[]]. subst J.
+    repeat split; try discriminate.
+    + exists true. reflexivity.
+    + intros d [H|[H|[]]]; subst; exists true; reflexivity.
+  - eexists. eexists. split; [reflexivity|]. split; [reflexivity|]. split; reflexivity.
+Qed.
+Print Assumptions C37_dnf_increase_split_refuted.
+
+Example C37_dnf_dropped_empty_is_noop_nonvacuous :
+  let cdnf := fun _ : expr => @nil expr in
+  let a := {| a_params := []; a_pre := []; a_effs := [eff fy (EBool true) (EAnd [fl fc; ENot (fl fc)]) KAssign true] |} in
+  Forall (dnf_effect_ok cdnf Pb s_cd a []) (a_effs a) /\ flat_map (split_effect cdnf) (a_effs a) = [] /\
+  applicable Pb s_cd a [] = true.
+Proof.
+  cbv zeta. split; [|split; reflexivity].
+  repeat constructor; try discriminate.
+  - exists false. reflexivity.
+  - intros d [].
+Qed.
+
+Example C37_goals_nonvacuous :
+  let gs := [EOr [fl fx; fl fd]; fl fc] in
+  let cs := [CFake fk [[fl fx]; [fl fd]]; CDirect (fl fc)] in
+  Forall2 (cgoal_ok Pb s_cd) gs cs /\ all_hold false (mk_interp Pb s_cd []) gs = true /\
+  (exists t, spec_step false Pb s_cd (fake_action fk [fl fd]) [] = Some t /\ t fk [] = Some (VBool true)).
+Proof.
+  cbv zeta. split; [repeat constructor|]. split; [reflexivity|]. eexists. split; reflexivity.
+Qed.
